@@ -27,6 +27,9 @@ def matrix_cases(tier):
     return st.one_of(
         mdp_specs("discounted", max_states=6 if big else 5, schemes=SCHEMES, p0_zero_entries=True),
         mdp_specs("negative", max_states=6 if big else 5, schemes=SCHEMES, p0_zero_entries=True),
+        # absorbing states whose successors lie outside the (inferred) state list: rows left out of the arrays
+        mdp_specs("discounted", min_states=3, max_states=6 if big else 5, schemes=SCHEMES, normalise=False, allow_explicit=False,
+                  absorbing_kinds=("n", "n", "n", "abs", "abs")),
     )
 
 
